@@ -58,6 +58,18 @@ CHECKS.update({
    "The concurrent sources are instrumented from the current tree (AST rewriting: sync->shim, go->shim.Go, yields, kernel-call wrappers) and injected with go build -overlay; a cooperative scheduler then enumerates EVERY interleaving of the worker goroutines at kernel-call granularity and every interleaving with <=2 (thorough <=3) preemptions at statement granularity, for encode and reconstruct configurations; each execution is checked against the single-goroutine bytes and for conflicting memory accesses between workers. The goroutine-count dimension is a full product (every even length 2..600 x g 1..40), par2 Create/Repair are compared for g=1..12, and the same bodies run free under the race detector in a separate -race build.",
    "Scheduler is sequentially consistent; weak memory only via the race-detector side pass. Unsupported constructs (channels, atomics) are reported and make the run non-exhaustive.", "DESIGN.md 3/C12"),
 })
+CHECKS.update({
+ "C10": form_b("Writer direction: full product of small sets (files x sizes x volumes x name families) plus >16 KiB and 98/99-volume sets, every written file parsed by a strict independent PAR 1.0 reader and every parity byte recomputed with the reference GF(2^8). Reader direction: reference-written sets over every status bitmask of 1-4 entries x comments x names with surrogate pairs x every subset of damaged saved files x every subset of missing volumes, plus volumes with valid hashes but wrong parity; real Verify(all) and Repair judged by the reference numbering of saved files.",
+   "Trusted base: ref/rpar1, ref/gf8, envfs.", "DESIGN.md 3/C10"),
+ "C15": form_b("Every declared name from a component alphabet up to length 3 (thorough 4) with leading/trailing slash variants plus special spellings and absolute paths, in each position, for PAR1 and PAR2 archives written by the reference writers as fully repairable sets with missing files; recorder-based check of every write path on the in-memory filesystem for all names, and byte snapshots of a canary tree around a real archive directory for the short names; PAR2 Create with outside inputs in 10 spellings.",
+   "Linux path semantics. The in-memory filesystem models ancestors of files as directories (EISDIR), like a real one.", "DESIGN.md 3/C15"),
+ "C17": form_b("Full product on real directories of permutations of the input list x goroutine counts x working directories x path spellings, through the library (with chdir) and through the built par command, each output compared byte-for-byte with a baseline run.",
+   "Contents, relative names, slice size and block count fixed; 1-4 files.", "DESIGN.md 3/C17"),
+ "C19": form_b("Reference writers emit well-checksummed archives with one or two semantic mutations drawn from a table covering every numeric field of every PAR2 packet type (incl. the length field, which the packet hash does not cover) and of the PAR1 header and entries at boundary values, removal/duplication of packets and entries, inconsistent lists; applied to index/volumes/both x three data states; real Verify and Repair; no panic/crash/hang, allocation bound, truthfulness bounds derived from what the mutated archive itself declares, and every write checked against the archive's own hash.",
+   "Slice sizes of 2^31-class are not executed (legitimate proportional allocation); one known finding (slice size near 2^63) is listed in known_findings.jsonl.", "DESIGN.md 3/C19"),
+ "C20": form_b("Full product through the built par binary of command spellings and flags x archive states x invocation directories for PAR1 and PAR2, plus usage errors and unknown extensions; exit status judged by byte-level truth of the directory and a reference capacity computation, one-directionally as the statement is written.",
+   "Trusted base: byte comparison, ref/scan, library re-verification after create.", "DESIGN.md 3/C20"),
+})
 NOT_YET = "check not built yet in this round (work in progress; see DESIGN.md section 3 for the planned model-checking harness)"
 
 def main():
